@@ -247,6 +247,18 @@ def err_frame(ctx: Ctx) -> RuleResult:
                       "the frame walk of get_call_location goes a different number of frames up for these nodes: a failing node is reported "
                       "at a line inside the library (or at its caller's caller) instead of the user's line", norm_src(c)[:100])
     r.ob(True, {"default": default, "explicit sites": len(sites)})
+    # binding a decorated method must not add a Python frame between the user's line and LazyExecNode.__call__
+    lz = ctx.P.classes.get(ctx.cls_q("LazyExecNode"))
+    g = lz.methods.get("__get__") if lz is not None else None
+    if g is not None:
+        nested = [n for n in ast.walk(g.node) if isinstance(n, (ast.FunctionDef, ast.AsyncFunctionDef, ast.Lambda)) and n is not g.node]
+        calls_self = [n for n in nested if any(isinstance(c, ast.Call) and dotted(c.func) == "self" for c in ast.walk(n))]
+        r.ob(not calls_self, {"LazyExecNode.__get__ binds without a wrapper frame": not calls_self})
+        if calls_self:
+            r.violate("LazyExecNode.__get__: a decorated method is bound through a wrapper function", g.loc(calls_self[0]),
+                      "obj.method(...) inside a DAG goes through one more Python frame before the node is created: the frame walk of "
+                      "get_call_location stops inside the library, and a failing node is reported at that line instead of the user's",
+                      norm_src(calls_self[0])[:100] if not isinstance(calls_self[0], ast.Lambda) else "lambda")
     return r
 
 
